@@ -112,6 +112,25 @@ func craftedInputs() []epInput {
 		beyond = append(beyond, ifdEntry{[]uint16{0x013b, 0x8298, 0x0131, 0x010e}[i%4], 2, 40, le32(uint32(2000 + 50*i))})
 	}
 	add("ifd0-80-values-beyond-eof", tiffLE(beyond, 0, make([]byte, 32)))
+	{
+		// the same directory as the CMT1 box of a CR3 file and as the Exif item of a HEIF file whose boxes declare room for
+		// the values but whose bytes end right after the directory: the Exif reader then reads through an ISOBMFF box
+		bt := tiffLE(beyond, 0, make([]byte, 32))
+		padded := append(append([]byte{}, bt...), make([]byte, 1<<20)...) // the boxes declare a megabyte; the file is cut below
+		meta := &bnode{typ: "uuid", prefix: uuidCR3Meta, kids: []*bnode{{typ: "CNCV", payload: []byte("CanonCR3_001/00.10.00/00.00.00")}, {typ: "CMT1", payload: padded}}}
+		cr3 := (&bmffTree{top: []*bnode{{typ: "ftyp", payload: []byte("crx \x00\x00\x00\x01crx isom")}, {typ: "moov", kids: []*bnode{meta}}}}).bytes()
+		if i := bytes.Index(cr3, bt[:40]); i > 0 {
+			add("cr3-cmt1-80-values-beyond-eof", cr3[:i+len(bt)])
+		}
+		box := func(t string, p []byte) []byte {
+			b := binary.BigEndian.AppendUint32(nil, uint32(8+len(p)))
+			return append(append(b, []byte(t)...), p...)
+		}
+		heif := append(box("ftyp", []byte("heic\x00\x00\x00\x00mif1heic")), box("mdat", append([]byte{0, 0, 0, 6, 'E', 'x', 'i', 'f', 0, 0}, padded...))...)
+		if i := bytes.Index(heif, bt[:40]); i > 0 {
+			add("heif-mdat-80-values-beyond-eof", heif[:i+len(bt)])
+		}
+	}
 	// first IFD offset pointing at the last byte of a 32-byte file
 	short := append([]byte("II*\x00\x1f\x00\x00\x00"), make([]byte, 24)...)
 	add("ifd-at-byte-31", short)
@@ -384,6 +403,9 @@ func corpus(c *Ctx, mutPerSample, jpegGen int) []epInput {
 	}
 	out = append(out, jpegGenInputs(c, jpegGen)...)
 	out = append(out, bmffGenInputs(c, jpegGen/3+4)...)
+	// generated Exif files (TIFF and in JPEG / PNG / HEIF): valid metadata in every field parser, a quarter of them with
+	// zero denominators in their rational values, IFD1, many-tag layouts
+	out = append(out, genExifInputs(c, jpegGen/6+8)...)
 	return out
 }
 
